@@ -68,8 +68,11 @@ def gen_thread(rng, t, behav, max_ops, force_raise=False, pre_fns=()):
     if r < 0.10:
       # a function / class / enum member as a plain value, shared by all threads
       return {'sym': rng.choice(['n0', 'N2', 'Color.RED', 'Color.BLUE', 'NT'])}
-    if r < 0.55 or depth >= 1:
+    if r < 0.50 or depth >= 1:
       return token()
+    if r < 0.55:
+      # a TaggedValue (a small configuration of its own) as the value
+      return {'tv': {'tags': [rng.choice(['T0', 'T1', 'U0'])], 'value': token()}}
     if r < 0.70:
       return {'list': [child(depth + 1) for _ in range(rng.randint(0, 2))]}
     if r < 0.78:
@@ -137,8 +140,10 @@ def gen_thread(rng, t, behav, max_ops, force_raise=False, pre_fns=()):
       else:
         ops.append({'op': 'suspend_exit'})
         depth = max(0, depth - 1)
-    elif r < 0.68:
+    elif r < 0.62:
       ops.append({'op': 'build', 'c': c})
+    elif r < 0.68:
+      ops.append({'op': 'tvalue', 'tag': rng.choice(['T0', 'T1', 'U0']), 'v': token()})
     elif r < 0.73:
       ops.append({'op': rng.choice(['deepcopy', 'copy', 'pickle', 'pickle']), 'c': c})
       fn_of.append(fn)
@@ -146,6 +151,11 @@ def gen_thread(rng, t, behav, max_ops, force_raise=False, pre_fns=()):
       arg = rng.choice(NAMES[fn]) if NAMES[fn] else 0
       ops.append({'op': rng.choice(['add_tag', 'add_tag', 'clear_tags']),
                   'c': c, 'arg': arg, 'tag': rng.choice(['T0', 'T1', 'U0'])})
+    elif r < 0.775:
+      ops.append({'op': 'tvalue', 'tag': rng.choice(['T0', 'T1', 'U0']), 'v': token()})
+    elif r < 0.79:
+      ops.append({'op': 'set_tagged', 'c': c, 'tag': rng.choice(['T0', 'T1', 'U0']),
+                  'v': token()})
     elif r < 0.82:
       ops.append({'op': 'eq', 'c': c, 'd': rng.randrange(len(fn_of))})
     elif r < 0.90:
